@@ -13,9 +13,11 @@
 (*    fns : << code >>]   position k holds function k-1;                   *)
 (*                        code = << <<op, a>>, .. >> (see VMSem)           *)
 (*                                                                         *)
-(* One behaviour per ANALYSIS ITEM <<image, function, entry locals>>:      *)
+(* One behaviour per ANALYSIS ITEM <<image, function, entry locals, keep>>:*)
 (* every function starts with l0 = its captures; a wrapper function starts *)
-(* with the variables bound by the earlier lines of its session.           *)
+(* with the variables bound by the earlier lines of its session, and the   *)
+(* REPL relies on `keep` locals of its persistent frame afterwards (the    *)
+(* highest binding index + 1; 0 = nothing / not known).                    *)
 (*                                                                         *)
 (* The state is the analysis state of the item.  Abstract values are pairs *)
 (* <<h, l>>: h = operand height on entry to a pc, relative to the frame    *)
@@ -36,7 +38,7 @@ EXTENDS VMSem, FiniteSets, TLC, Json, IOUtils
 CONSTANT Grain
 
 VARIABLE st   \* one record:
-  \* it   : <<image index, function position (fi + 1), entry locals>>
+  \* it   : <<image index, function position (fi + 1), entry locals, keep>>
   \* ph   : "root" (the single initial state, fans out to the items) | "new" | "run" | "done"
   \* M    : label pc -> <<h, l>>
   \* cur  : <<>> or <<pc, h, l>>
@@ -50,8 +52,12 @@ EntryFis(P) == {P.entries[i].fi : i \in 1..Len(P.entries)}
 
 Items(p) ==
   LET P == Imgs[p] IN
-    {<<p, k, P.caps[k]>> : k \in {j \in 1..Len(P.fns) : (j - 1) \notin EntryFis(P)}}
-    \cup {<<p, P.entries[i].fi + 1, P.entries[i].l0>> : i \in 1..Len(P.entries)}
+    IF "only" \in DOMAIN P
+      \* the engine's quick tier hands over a selection <<fi + 1, l0, keep>> of the items (one
+      \* representative per distinct function shape); the thorough tier never does
+      THEN {<<p, P.only[i][1], P.only[i][2], P.only[i][3]>> : i \in 1..Len(P.only)}
+      ELSE {<<p, k, P.caps[k], 0>> : k \in {j \in 1..Len(P.fns) : (j - 1) \notin EntryFis(P)}}
+           \cup {<<p, P.entries[i].fi + 1, P.entries[i].l0, P.entries[i].keep>> : i \in 1..Len(P.entries)}
 
 AllItems == UNION {Items(p) : p \in 1..Len(Imgs)}
 
@@ -99,7 +105,7 @@ Jump(S, n, pc, t, h2, l2) ==
 (* Propagate one instruction: the carried value, or else the lowest label  *)
 (* of the work-list.                                                       *)
 (***************************************************************************)
-StepOne(S, code, T, selfcaps) ==
+StepOne(S, code, T, selfcaps, keep) ==
   LET n  == Len(code)
       fromWork == S.cur = <<>>
       pc == IF fromWork THEN MinOf(S.work) ELSE S.cur[1]
@@ -125,13 +131,18 @@ StepOne(S, code, T, selfcaps) ==
                  [] Op(I) = "JumpIf" -> Jump(Fall(S0, n, pc + 1, h2, l2), n, pc, pc + A(I) + 1, h2, l2)
                  \* TailCall(true) restarts this frame: height 1 (the argument), locals cut back
                  \* to the captures; TailCall(false) leaves for another function
-                 [] Op(I) = "TailCall" -> IF A(I) = 1 THEN Arrive(S0, n, 0, h2, selfcaps) ELSE S0
+                 \* (handle_tail_call: truncate_locals(locals_base) -- in the REPL's persistent
+                 \* frame this discards every variable the session has bound)
+                 [] Op(I) = "TailCall" ->
+                      IF A(I) = 1 THEN Arrive(S0, n, 0, h2, selfcaps)
+                      ELSE IF keep > 0 THEN [S0 EXCEPT !.err = Bad("handover", pc, h, l, keep)]
+                      ELSE S0
                  [] OTHER -> Fall(S0, n, pc + 1, h2, l2)
 
-RECURSIVE Run(_, _, _, _, _)
-Run(S, code, T, selfcaps, k) ==
+RECURSIVE Run(_, _, _, _, _, _)
+Run(S, code, T, selfcaps, keep, k) ==
   IF k = 0 \/ (S.work = {} /\ S.cur = <<>>) \/ S.err # <<>> THEN S
-  ELSE Run(StepOne(S, code, T, selfcaps), code, T, selfcaps, k - 1)
+  ELSE Run(StepOne(S, code, T, selfcaps, keep), code, T, selfcaps, keep, k - 1)
 
 Stat0 == [steps |-> 0, joins |-> 0, ldiff |-> 0, tails |-> {}]
 
@@ -147,7 +158,7 @@ Start(i) ==
        stat |-> Stat0]
 
 Where(i) == [id |-> Imgs[i[1]].id, line |-> Imgs[i[1]].line, form |-> Imgs[i[1]].form,
-             img |-> i[1], fi |-> i[2] - 1, l0 |-> i[3]]
+             img |-> i[1], fi |-> i[2] - 1, l0 |-> i[3], keep |-> i[4]]
 
 Init == st = [it |-> CHOOSE i \in AllItems : TRUE, ph |-> "root", M |-> <<>>, cur |-> <<>>,
               work |-> {}, err |-> <<>>, stat |-> Stat0]
@@ -158,7 +169,7 @@ Advance(s) ==
   LET i  == s.it
       S0 == IF s.ph = "new" THEN Start(i)
             ELSE [M |-> s.M, cur |-> s.cur, work |-> s.work, err |-> s.err, stat |-> s.stat]
-      S  == Run(S0, Code(i), Imgs[i[1]], Imgs[i[1]].caps[i[2]], Grain)
+      S  == Run(S0, Code(i), Imgs[i[1]], Imgs[i[1]].caps[i[2]], i[4], Grain)
       fin == (S.work = {} /\ S.cur = <<>>) \/ S.err # <<>>
       r  == [it |-> i, ph |-> IF fin THEN "done" ELSE "run", M |-> S.M, cur |-> S.cur,
              work |-> S.work, err |-> S.err, stat |-> S.stat]
@@ -190,4 +201,5 @@ ResetInRange      == ~Is("reset_range")      \* Reset(i) never grows the locals
 JoinHeightsAgree  == ~Is("join_height")      \* one height at every join
 ExitHeightOne     == ~Is("exit_height")      \* argument consumed, exactly one result
 TailCallHeights   == ~Is("tailcall_height")  \* TailCall(true) at 1, TailCall(false) at 2
+ReplBindingsSurvive == ~Is("handover")       \* no wrapper tail-calls away the session's variables
 =============================================================================
